@@ -65,6 +65,9 @@ class Func(object):
                     names.add(n.name)
                 elif isinstance(n, (ast.FunctionDef, ast.ClassDef)):
                     names.add(n.name)           # nested definitions are locals too
+                elif isinstance(n, (ast.Import, ast.ImportFrom)):
+                    for a_ in n.names:
+                        names.add((a_.asname or a_.name).split('.')[0])
             self._locals = names
         return self._locals
 
@@ -185,7 +188,7 @@ class Program(object):
         from . import normalise
         ctx = normalise.package_context(dict((n, (m.tree, dict(m.aliases), set())) for n, m in self.modules.items()))
         ctx['consts'] = dict((n, normalise.module_constants(m.tree)) for n, m in self.modules.items())
-        ctx['keep'] = _names_known_to_rules()
+        ctx['keep'] = set(_names_known_to_rules()) | set(ctx.get('rebound', ()))      # (a name assigned through `module.NAME = ...` is no constant)
         ctx['keep_funcs'] = _idents_known_to_rules()
         ctx['xhelpers'] = dict((k, v) for k, v in ctx.get('xhelpers', {}).items() if k[1] not in ctx['keep_funcs'])
         self.normalised = {}
